@@ -273,12 +273,22 @@ func genRetry(p proto, t *simrt.Tape, tier string) *ccCfg {
 		sp.ck = ctxKind(1 + t.Choose(2))
 		sp.ctxAt = time.Duration(t.Choose(int((bound+T)/(ms(1)/4)))) * (ms(1) / 4)
 	}
+	if cfg.tries < 0 && sp.ck == ctxBackground {
+		// safety net: a planned acceptance may be rejected by a reject-first-n matcher
+		sp.ck = ctxCancelAt
+		sp.ctxAt = sp.startDelay + T*time.Duration((int64(1)<<uint(k+2))-1) + ms(1)/4
+		bound = sp.ctxAt
+	}
 	cfg.span = bound + 2*T
 	cfg.callers = [][]callSpec{{sp}}
 	// bystanders on other ids
 	nby := t.Weighted(3, 2, 1)
 	for i := 0; i < nby; i++ {
 		b := callSpec{xid: cfg.pool[1+i], mk: mkType, startDelay: pick(t, 0, ms(1), T/2, T)}
+		if cfg.tries < 0 {
+			b.ck = ctxCancelAt
+			b.ctxAt = time.Duration(t.Choose(int(cfg.span/(ms(1)/4))+1)) * (ms(1) / 4)
+		}
 		cfg.callers = append(cfg.callers, []callSpec{b})
 	}
 	// noise only: nothing the by-type matcher accepts with the caller's id, except the planned one
